@@ -289,6 +289,17 @@ pub fn run_case(case: &OwnerCase) -> Result<OStats, String> {
                                     Err(e) => errors.lock().unwrap().push(format!("round {r}: the owner's put failed: {e:?}")),
                                 }
                             }
+                            if case.overlap && (t + r) % 2 == 0 {
+                                // half of the overlapping closes wait (at most 200 ms) until the background
+                                // thread has picked a second size compaction: that one is usually a follow-up
+                                // task the worker queued for itself after the first (affects the schedule only)
+                                let t0 = std::time::Instant::now();
+                                while raindb::verif::counter(raindb::verif::Counter::SizeCompaction) < picked0 + 2
+                                    && t0.elapsed() < std::time::Duration::from_millis(200)
+                                {
+                                    std::thread::sleep(std::time::Duration::from_micros(100));
+                                }
+                            }
                             drop(d);
                             Res::Closed
                         } else {
